@@ -304,8 +304,13 @@ func (n *TrainedNet) WriteBasm() (string, error) {
 			result += fmt.Sprintf("%%meta cpdef %s fragcollapse%s\n", cName[:len(cName)-1], cCode)
 		}
 
-		// Processing remaining nodes
+		// Processing remaining nodes (sorted, the map order changes at every run)
+		remaining := make([]string, 0, len(ProcessedNodes))
 		for node := range ProcessedNodes {
+			remaining = append(remaining, node)
+		}
+		sort.Strings(remaining)
+		for _, node := range remaining {
 			result += fmt.Sprintf("%%meta cpdef %s fragcollapse:%s\n", node, node)
 		}
 
